@@ -1,4 +1,5 @@
 """C01 Message round trip — NARROW structural clauses only (DESIGN §11.10)."""
+import re
 from rules import stream, c03, c05, c12, c17
 from rules.tables import int_to_variant_table
 from core import has_origin
@@ -82,6 +83,7 @@ def run(ctx):
     P = 'C01'
     octet_tables(ctx, P)
     builder_conversions_keep_settings(ctx, P)
+    builder_setters_validate_before_mutating(ctx, P)
     c17.s17_1(ctx, P)
     c17.s17_3(ctx, P)
     c17.partial_emitters(ctx, P)
@@ -99,3 +101,31 @@ def run(ctx):
     stream.wrapper_finishers(ctx, P)
     stream.stage_buffer_advanced_by_what_was_copied(ctx, P)
     stream.grown_stage_emptied_on_failed_fill(ctx, P)
+    stream.finished_flag_set_after_the_writes(ctx, P)
+
+
+def builder_setters_validate_before_mutating(ctx, P):
+    """A configuration setter of the message builder that can refuse (`-> Result<&mut Self>`) either changes the builder or reports an
+    error, never both: a caller that ignores (or handles) the `Err` of a late `set_session_key` must still get a message whose session
+    key packets and body were made with the SAME key.  In every public `&mut self` method of `Builder` that returns a Result, no error
+    exit is reachable from an assignment to a field of the builder."""
+    from rules.common import err_exit_blocks, site
+    n = 0
+    for p, r in sorted(ctx.f.bodies.items()):
+        if '::tests::' in p or r['kind'] != 'AssocFn' or r['nargs'] < 1 or r.get('vis') != 'pub':
+            continue
+        if not p.startswith('composed::message::builder::Builder::<') or not (r['locals'][1]['ty'] or '').startswith('&mut'):
+            continue
+        if not re.match(r'(std::result::Result|errors::Result)<', r['locals'][0]['ty'] or ''):
+            continue
+        b = ctx.wrap(r)
+        muts = sorted(set(i for i, k, st in b.stmts(lambda st: st['d']['l'] == 1 and len(st['d']['pr']) >= 2 and st['d']['pr'][0] == '*')))
+        errs = set(err_exit_blocks(b))
+        if not muts or not errs:
+            continue
+        n += 1
+        late = [m for m in muts if b.reach_from([m]) & errs]
+        ctx.check('%s:S01-7:setter-validates-before-mutating:%s' % (P, p), 'R-seq', '%s reports an error only while the builder is still unchanged' % p.split('::')[-1],
+                  not late, function=p, site=site(b, late[0]) if late else None,
+                  missing=None if not late else 'the builder field assigned at %s is already changed when a later check refuses: an Err of this setter leaves a builder whose parts no longer fit together' % site(b, late[0]))
+    ctx.floor(P + ':S01-7:floor', 'fallible configuration setters of the message builder', n, 4)
